@@ -71,6 +71,9 @@ SWEEP_RULE = ("exhaustive product of boundary classes per field (addresses: empt
 def sweep():
     return {"kind": "sweep", "profile": "", "n_quick": 1, "n_thorough": 1, "per_shard": 1}
 
+def sweep_values(nq, nt):
+    return {"kind": "sweep", "profile": "values", "n_quick": nq, "n_thorough": nt, "per_shard": 500}
+
 REPLICAS = [{"TZ": "UTC", "GOMAXPROCS": "1"}, {"TZ": "Europe/Warsaw", "GOMAXPROCS": "8", "VERIF_QUERIES": "1"}, {"TZ": "America/St_Johns", "GOMAXPROCS": "3"}]
 
 PROPS = {
@@ -239,9 +242,12 @@ PROPS = {
     "C20": {
         "title": "No message or query of the custom modules panics on any input",
         "model": "Handlers.v: validate_basic, handle (front door of all 17 messages), q_generic, q_account_info; HandlersSweep.v: decoding of the class vectors",
-        "runs": [sweep()],
+        "runs": [sweep(), sweep_values(4000, 120000)],
         "preds": ["C20."],
-        "rule": SWEEP_RULE,
+        "rule": SWEEP_RULE + "; second stream: messages of the seven cfevesting handlers with randomly drawn values (integers: nil, negative, zero, small, around the "
+                "balances / pool amounts / locked coins of the prepared state, around 2^63 and 2^64, up to 60 digits; coin lists of 0-3 entries mixing valid, zero, "
+                "negative, nil amounts and valid / unknown / malformed / empty denominations; denomination lists; durations; times), printed as terms of the model's "
+                "message type; distinct = distinct messages",
         "partial": ["the handlers are modelled up to and including every operation on a raw field value or on looked-up state that can panic "
                     "(nil Int/Dec arithmetic, NewCoin / AmountOf, nil dereference, empty store key, SendCoins from an insolvent account); the "
                     "well-formed cores behind them are the models of C05-C09 / C13 (Vest.v, Params.v, Minter.v), connected by the lowering theorems",
